@@ -56,6 +56,11 @@ def bbytes(b):
     return b"B" + len(b).to_bytes(4, "little") + b
 
 
+def _sbu(s):
+    b = s.encode()
+    return b"\x8c" + bytes([len(b)]) + b
+
+
 INNER = [
     ("benign-data", b"]q\x00(K\x01K\x02e.", True),
     ("allowed-global", b"ccollections\nOrderedDict\n)R.", True),
@@ -68,6 +73,10 @@ INNER = [
     ("os-system", b"cos\nsystem\n(S'true'\ntR.", False),
     ("added-global", b"czqv_ok\ng\n.", "added"),
     ("allowed-module-other-member", b"ccollections\nChainMap\n.", False),
+    # protocol-4 dotted qualified names: the unpickler walks the attribute chain, so only an exact allowlist entry may pass
+    ("dotted-qualname-call", b"\x80\x04" + _sbu("collections") + _sbu("OrderedDict.fromkeys") + b"\x93" + _sbu("ab") + b"\x85R.", False),
+    ("dotted-qualname-globals", b"\x80\x04" + _sbu("argparse") + _sbu("Namespace.__init__.__globals__") + b"\x93.", False),
+    ("dotted-qualname-global-opcode", b"\x80\x04ccollections\nOrderedDict.fromkeys\n.", False),
 ]
 
 
@@ -167,12 +176,12 @@ def _mediated(entry, adds, vias, inner):
 
 def find_class_lemma(mi: int, ni: int, adds: int) -> bool:
     """
-    pre: 0 <= mi < 12 and 0 <= ni < 8 and 0 <= adds < 3
+    pre: 0 <= mi < 12 and 0 <= ni < 10 and 0 <= adds < 3
     post: _
     """
     # super().find_class is reached iff (module, name) is allowed; otherwise UnsafeFileError, nothing resolved
     mods = ["collections", "os", "zqv_sink", "zqv_ok", "numpy", "builtins", "collections.abc", "collection", "_codecs", "torch", "zqv_ok.sub", ""]
-    names = ["OrderedDict", "system", "f", "g", "dtype", "eval", "defaultdict", "encode"]
+    names = ["OrderedDict", "system", "f", "g", "dtype", "eval", "defaultdict", "encode", "OrderedDict.fromkeys", "defaultdict.__init__.__globals__"]
     mi, ni, adds = pin(mi, 0, len(mods) - 1), pin(ni, 0, len(names) - 1), pin(adds, 0, 2)
     with native():
         _ensure_sink()
@@ -211,7 +220,7 @@ def lemmas(tier):
             L.append(Lemma(fn.__name__, fn, timeout=400 if q else 2000, replay=make_replay(entry, depth),
                            dry=[{"v0": 0, "v1": 0, "v2": 0}, {"v0": 1 if depth else 0, "v1": 3 if depth > 1 else 0, "v2": 0}],
                            doc={"F": ["solver-partitioned: loader stand-in per nesting level (8 each): %s" % VIA,
-                                      "enumerated inside each cell: additions (2 sets) x innermost program (11: benign, allow-listed, sink through every global/call opcode, os.system, added global, other member of an allow-listed module)",
+                                      "enumerated inside each cell: additions (narrow, wide, narrow) x innermost program (14: benign, allow-listed, sink through every global/call opcode, os.system, added global, other member of an allow-listed module)",
                                       "entry point %s, nesting depth %d" % (["pickle.load", "pickle.loads", "_pickle.load", "_pickle.loads"][entry], depth)],
                                 "bound": "depth <= 3"}))
     return L + [
